@@ -177,6 +177,14 @@ class AffEval:
             tx = sym(f"tan({nx})") if sx > 0 else neg(sym(f"tan({nx})"))
             ty = sym(f"tan({ny})") if sy > 0 else neg(sym(f"tan({ny})"))
             return (P(1), ty, tx, P(1), P(0), P(0))
+        if name == "skewx":
+            sx, nx = self.angle(args[0])
+            tx = sym(f"tan({nx})") if sx > 0 else neg(sym(f"tan({nx})"))
+            return (P(1), P(0), tx, P(1), P(0), P(0))
+        if name == "skewy":
+            sy, ny = self.angle(args[0])
+            ty = sym(f"tan({ny})") if sy > 0 else neg(sym(f"tan({ny})"))
+            return (P(1), ty, P(0), P(1), P(0), P(0))
         if name == "matrix":
             return self.lit(args)
         raise Unfoldable(f"affine method {name}")
@@ -192,7 +200,7 @@ class AffEval:
                 return IDENT
             if fn in ("Affine2D", "Transform"):
                 return self.lit(e.args)
-            if isinstance(e.func, ast.Attribute) and e.func.attr in ("translate", "scale", "rotate", "skew", "matrix"):
+            if isinstance(e.func, ast.Attribute) and e.func.attr in ("translate", "scale", "rotate", "skew", "skewx", "skewy", "matrix"):
                 return matmul(self.mat(e.func.value), self.op(e.func.attr, e.args, e.keywords))
             if fn in ("Affine2D.compose_ltr",) and e.args and isinstance(e.args[0], (ast.Tuple, ast.List)):
                 m = IDENT
